@@ -7,6 +7,7 @@ import (
 	"encoding/json"
 	"errors"
 	"fmt"
+	"hash/crc32"
 	"math"
 	"os"
 	"path/filepath"
@@ -760,6 +761,38 @@ func loadersCase(n int, compressible bool, mk func(kind, detail string) *hx.Viol
 
 // loadersRefusableCases (shared by C12 and C18): see the comment inside.
 func loadersRefusableCases(c *hx.Checker) {
+	// a zip member whose header declares an absurd uncompressed size (2^62) over a few bytes of data: an error, no panic
+	c.Case(hx.CaseInfo{ID: "loaders/zip-declared-size", Tags: []string{"loaders", "zip-declared-size"}, NonTrivial: true}, func() (v *hx.Violation) {
+		mk := func(kind, detail string) *hx.Violation {
+			return &hx.Violation{Kind: kind, Detail: detail, Replay: map[string]any{"replay_kind": "loaders-zip-size"}}
+		}
+		defer func() {
+			if p := recover(); p != nil {
+				v = mk("panic", fmt.Sprintf("%v :: %s", p, firstLines(string(debug.Stack()), 12)))
+			}
+		}()
+		mb := hx.Marshal(hx.Model(&onnx.GraphProto{Name: "g", Initializer: []*onnx.TensorProto{hx.TensorProto("w", recFill(ref.F32, []int{4}, 3), "raw")}, Output: []*onnx.ValueInfoProto{hx.ValueInfoNoShape("w")}}, 13))
+		for _, size := range []uint64{1 << 62, 1 << 40, 1<<32 + 5, uint64(len(mb)) + 1, uint64(len(mb)) - 1, 0} {
+			var buf bytes.Buffer
+			zw := zip.NewWriter(&buf)
+			fh := &zip.FileHeader{Name: "m.onnx", Method: zip.Store, UncompressedSize64: size, CompressedSize64: uint64(len(mb)), CRC32: crc32.ChecksumIEEE(mb)}
+			fw, err := zw.CreateRaw(fh)
+			if err != nil {
+				hx.HarnessError("zip raw: %v", err)
+			}
+			fw.Write(mb)
+			zw.Close()
+			zr, err := zip.NewReader(bytes.NewReader(buf.Bytes()), int64(buf.Len()))
+			if err != nil {
+				continue // the archive itself is rejected by the zip reader: nothing reaches the library
+			}
+			m, lerr := gonnx.NewModelFromZipFile(zr.File[0])
+			if lerr == nil && m == nil {
+				return mk("nil-output", fmt.Sprintf("NewModelFromZipFile returned neither a model nor an error (declared size %d)", size))
+			}
+		}
+		return hx.OK("loaders-refuse-damaged-files")
+	})
 	// a zip member whose stored bytes do not match its checksum (one flipped bit inside a weight): refused, never loaded
 	// with another weight
 	c.Case(hx.CaseInfo{ID: "loaders/zip-checksum-mismatch", Tags: []string{"loaders", "zip-checksum"}, NonTrivial: true}, func() (v *hx.Violation) {
